@@ -152,9 +152,10 @@ def _random_block(r):
     lines = []
     for _ in range(n):
         l = r.choice(good) if r.random() < 0.985 else r.choice(RLINES)
-        lines.append(r.choice(["", "", "  ", "\t"]) + l + r.choice(["", "", " "]))
+        odd = r.random() < 0.3
+        lines.append(r.choice(["", "", "  ", "\t"] + (["\x0c", "\u2028", "\r", "\u0085 "] if odd else [])) + l + r.choice(["", "", " "] + (["\r", " \r", "\x0b", "\u3000"] if odd else [])))
         if r.random() < 0.1:
-            lines.append(r.choice(["", "   "]))
+            lines.append(r.choice(["", "   ", "\r", "\x0c", "\u2028", "\u0085", " \u3000 "]))
     return vbatch.BBlock([("line-pattern", pat)], lines)
 
 
